@@ -21,6 +21,12 @@
     AssertionError(x.ref)`.  The assertion cannot fire (the function holds a reference, CUDD's
     counters saturate); IF it fired, the function would leave holding `x`, the references parked in
     `vector` / `table`, and in `_c_compose` the array itself.
+
+  * Written into `fieldPathOk` (DD/CWrap.lean), not a list here: `BDD.decref(u, _direct=True)` /
+    `ZDD.decref(u, _direct=True)` give one library reference back and leave the counter `u._ref`
+    alone — on purpose: `dd/_copy.py` (line 507) creates a handle for a node it already holds a
+    reference on and uses `_direct` to cancel the extra one.  It breaks the invariant
+    "`_ref` = library references owned by the handle" for callers that use it otherwise.
 -/
 import DD.CTableTypes
 namespace DD
